@@ -42,7 +42,25 @@ def r_layering(ctx, cfg):
     q.who_may_call(ctx, R, F, W + "save_contract", {W + "register_contract", W + "update_admin", W + "execute_wasm"},
                    "the registry is written on instantiation, admin change and migration only")
     q.who_may_call(ctx, R, F, W + "call_migrate", {W + "execute_wasm"}, "migrate entry points run from the Migrate arm only")
-    q.who_may_call(ctx, R, F, W + "update_admin", {W + "execute_wasm"}, "admin changes come from UpdateAdmin / ClearAdmin only")
+    def acts_for_its_own_caller(caller):
+        # another way in is fine when it cannot forge the identity update_admin compares with the stored admin: the `sender` it
+        # passes is its own parameter (not read from storage, not computed), the store is the one it was given (or a cache
+        # of it) and update_admin's verdict is propagated.  The guard itself sits inside update_admin (C12.R1).
+        P0 = cfg.prov
+        g0 = F.fn(caller)
+        if g0 is None:
+            return False
+        ok0 = False
+        for h, b, t in q.lexical_calls(F, caller, W + "update_admin"):
+            a = P0.call_args(h, t, b)
+            snd, st = peel(a[3]), peel(a[2])
+            own_store = st[0] == "param" or (st[0] == "bound" and st[1] == "cache_of" and peel(st[2])[0] == "param")
+            if not (snd[0] == "param" and snd[2] != "self" and h.key.split("::{closure")[0] == caller and own_store and
+                    (q.error_propagates(P0, h, b) or h.key != caller)):
+                return False
+            ok0 = True
+        return ok0
+    q.who_may_call(ctx, R, F, W + "update_admin", {W + "execute_wasm"}, "admin changes come from UpdateAdmin / ClearAdmin only", accept=acts_for_its_own_caller)
     # the registry map itself is written by save_contract only
     P = cfg.prov
     writers = set()
